@@ -22,13 +22,16 @@ class Faults:
         self.faults = [dict(f) for f in faults]
         self.count = {}
         self.fired = []
+        self.disabled = False
 
     def next(self, on):
         n = self.count.get(on, 0)
         self.count[on] = n + 1
+        if self.disabled:
+            return None
         for f in self.faults:
-            if f['on'] == on and f['n'] == n:
-                self.fired.append(f)
+            if f['on'] == on and (f.get('n') == n or ('from' in f and n >= f['from'])):
+                self.fired.append(dict(f, at=n))
                 return f
         return None
 
